@@ -28,6 +28,8 @@ import (
 // Subscribe. The real gnmiTarget of data-server talks to it over a bufconn
 // dialer (target.New forwards grpc dial options), so no hook is needed.
 type GNMIDevice struct {
+	// NotifyOnSet: changes made through Set are reported on the STREAM subscriptions (closed loop with the real sync)
+	NotifyOnSet bool
 	gnmi.UnimplementedGNMIServer
 	mu     sync.Mutex
 	Config Conf
@@ -126,13 +128,29 @@ func FromGNMIPath(prefix, p *gnmi.Path) IPath {
 	return r
 }
 
+// GNMIQualifyIdentityKeys: the device spells identityref key values in its paths module:name (RFC 7951 style)
+var GNMIQualifyIdentityKeys bool
+
 func (p IPath) GNMI() *gnmi.Path {
 	r := &gnmi.Path{}
+	n := Root
 	for _, e := range p {
+		if n != nil {
+			n = n.Child(e.Name)
+		}
 		ge := &gnmi.PathElem{Name: e.Name}
 		if len(e.Keys) > 0 {
 			ge.Key = map[string]string{}
 			for k, v := range e.Keys {
+				if GNMIQualifyIdentityKeys && n != nil {
+					if kn := n.Child(k); kn != nil && kn.Type == "identityref" {
+						if v == "purple" {
+							v = ModExt + ":" + v
+						} else {
+							v = ModIds + ":" + v
+						}
+					}
+				}
 				ge.Key[k] = v
 			}
 		}
@@ -367,6 +385,16 @@ func (d *GNMIDevice) Set(ctx context.Context, req *gnmi.SetRequest) (*gnmi.SetRe
 	}
 	ApplyRecord(d.Config, rec)
 	d.Log = append(d.Log, rec)
+	if d.NotifyOnSet {
+		// an on-change subscription reports what a Set changed
+		upd := Conf{}
+		for _, u := range rec.Updates {
+			if !u.Path.IsKeyLeaf() {
+				upd[u.Path.Canon()] = u.Den
+			}
+		}
+		d.notifyLocked(rec.Deletes, upd)
+	}
 	rsp := &gnmi.SetResponse{Timestamp: time.Now().UnixNano()}
 	for _, dp := range req.GetDelete() {
 		rsp.Response = append(rsp.Response, &gnmi.UpdateResult{Path: dp, Op: gnmi.UpdateResult_DELETE})
@@ -673,6 +701,10 @@ func (d *GNMIDevice) Apply(deletes []IPath, updates Conf) int {
 	for _, k := range updates.SortedKeys() {
 		d.Config.ApplyUpdate(MustCanon(k), updates[k])
 	}
+	return d.notifyLocked(deletes, updates)
+}
+
+func (d *GNMIDevice) notifyLocked(deletes []IPath, updates Conf) int {
 	n := 0
 	for s := range d.subs {
 		var ns []*gnmi.Notification
@@ -707,6 +739,7 @@ func (d *GNMIDevice) Apply(deletes []IPath, updates Conf) int {
 // an in-process gNMI device: every change is first recorded (proto rendering, harness decoders), then pushed through
 // gnmiTarget.Set in the configured encoding; the gNMI device applies what arrives with gNMI semantics.
 type GNMITee struct {
+	Loop bool
 	Dev  *Device
 	Real target.Target
 	GDev *GNMIDevice
@@ -739,7 +772,12 @@ func (t *GNMITee) TakeErrs() []string {
 	return e
 }
 
-func (t *GNMITee) Sync(ctx context.Context, c *config.Sync, ch chan *target.SyncUpdate) {}
+// Sync: with Loop set the real gnmiTarget runs its sync against the gNMI device (closed loop), otherwise nothing syncs.
+func (t *GNMITee) Sync(ctx context.Context, c *config.Sync, ch chan *target.SyncUpdate) {
+	if t.Loop {
+		t.Real.Sync(ctx, c, ch)
+	}
+}
 func (t *GNMITee) Status() *target.TargetStatus                                        { return t.Real.Status() }
 func (t *GNMITee) Close() error                                                        { return t.Real.Close() }
 
